@@ -46,7 +46,7 @@ Definition oncall (c : Z) (j : instr) : bool :=
   | ICb c' _ => c' =? c
   | ICanHandle _ _ _ c' | IGetDest _ _ _ c' | IRemoteCan _ _ _ c' _ | IAddDest _ _ _ c' _ | IAddOrig _ _ _ c' _ _ => c' =? c
   | INcChk _ _ _ _ (Some (it, _)) => (it_call it =? c) && negb (it_tomb it)
-  | IRcvGet r | IRcvEnq r _ => r_call r =? c
+  | IRcvGet r | IRcvEnq r _ _ => r_call r =? c
   | IRcvChk r _ g =>
       (r_call r =? c) || match g with Some (it, _) => (it_call it =? c) && negb (it_tomb it) | None => false end
   | _ => false
@@ -61,7 +61,7 @@ Qed.
 (* instructions that report nothing but End *)
 Definition quiet (j : instr) : bool :=
   match j with
-  | IDec _ | ICheck _ | ISendErr _ _ _ | IConnClose _ | IDelete _ | IFailGet _ _ | IEntomb _ _ => true
+  | IDec _ | ICheck _ | ISendErr _ _ _ | IConnClose _ | IDelete _ _ | IFailGet _ _ | IEntomb _ _ => true
   | ICb _ x => cb_is_end x
   | _ => false
   end.
@@ -77,7 +77,7 @@ Definition opener (j : instr) : bool :=
 (* a fragment sender with fragments left is sending a non-final frame *)
 Definition rcv_good (r : rcv) : bool := negb (0 <? r_more r) || negb (fin_of (r_f r)).
 Definition instr_good (j : instr) : bool :=
-  match j with IRcvGet r | IRcvChk r _ _ | IRcvEnq r _ => rcv_good r | _ => true end.
+  match j with IRcvGet r | IRcvChk r _ _ | IRcvEnq r _ _ => rcv_good r | _ => true end.
 
 Fixpoint shape (code : list instr) : bool :=
   match code with
@@ -168,7 +168,7 @@ Proof.
   - split; [|discriminate]. destruct (items_entomb cf st t) as [st' g]. destruct g as [[it [|]]|]; inversion H; try reflexivity.
     destruct (match s with FromFail _ => it_orig it | FromTimeout o => o end); [|reflexivity].
     unfold orig_tail. destruct s; [destruct (reason =? reason_source_slow)|]; reflexivity.
-  - split; [|discriminate]. destruct (items_delete st t) as [st' g]. destruct g as [[it [|]]|]; inversion H; try reflexivity.
+  - split; [|discriminate]. destruct (items_delete_call st t lk) as [st' g]. destruct g as [[it [|]]|]; inversion H; try reflexivity.
     destruct (it_orig it); reflexivity.
   - split; [|discriminate]. destruct (lookup Z.eqb tm (timers st)) as [x|]; [|inversion H; reflexivity].
     destruct (tm_released x); inversion H; reflexivity.
@@ -212,75 +212,7 @@ Qed.
 
 (* ---------------------------------------------------------------- items after one instruction *)
 
-Lemma exec_items_fields : forall cf st i room st1 pushed t it, exec cf st i room = (st1, pushed) ->
-  In (t, it) (items st1) ->
-  (exists it0, In (t, it0) (items st) /\ it_call it = it_call it0 /\ it_dest it = it_dest it0 /\ it_remap it = it_remap it0 /\
-               it_orig it = it_orig it0 /\ it_tm it = it_tm it0 /\ (it_tomb it0 = true -> it_tomb it = true)) \/
-  (exists k f e c d, i = IAddDest k f e c d /\ t = (d, 1, c_nextid (get_conn st d)) /\
-      it_call it = c /\ it_dest it = k /\ it_remap it = f_id f /\ it_orig it = false /\ it_tomb it = false /\ it_tm it = next_tm st) \/
-  (exists k f e c d did, i = IAddOrig k f e c d did /\ t = (k, 0, f_id f) /\
-      it_call it = c /\ it_dest it = d /\ it_remap it = did /\ it_orig it = true /\ it_tomb it = false /\ it_tm it = next_tm st).
-Proof.
-  intros cf st i room st1 pushed t it H Hin.
-  assert (Hself : In (t, it) (items st) -> exists it0, In (t, it0) (items st) /\ it_call it = it_call it0 /\ it_dest it = it_dest it0 /\
-             it_remap it = it_remap it0 /\ it_orig it = it_orig it0 /\ it_tm it = it_tm it0 /\ (it_tomb it0 = true -> it_tomb it = true)).
-  { intro Hi. exists it. repeat split; try assumption. tauto. }
-  assert (Hsame : items st1 = items st -> exists it0, In (t, it0) (items st) /\ it_call it = it_call it0 /\ it_dest it = it_dest it0 /\
-             it_remap it = it_remap it0 /\ it_orig it = it_orig it0 /\ it_tm it = it_tm it0 /\ (it_tomb it0 = true -> it_tomb it = true)).
-  { intro He. rewrite He in Hin. apply Hself. exact Hin. }
-  destruct i; cbn [exec] in H.
-  - left. apply Hsame. destruct (e_start e =? 0); [inversion H; reflexivity|].
-    destruct ((e_start e =? 1) || (e_start e =? 3)); inversion H; reflexivity.
-  - left. apply Hsame. destruct (c_state (get_conn st k) =? c_connectionActive); inversion H; reflexivity.
-  - left. apply Hsame. destruct (klookup (k, 0, f_id f) (items st)); [inversion H; reflexivity|].
-    destruct (e_dest e =? -1); [inversion H; reflexivity|]. destruct (e_dest e <? 0); inversion H; reflexivity.
-  - left. apply Hsame. destruct (c_state (get_conn st d) =? c_connectionActive); inversion H; reflexivity.
-  - unfold timer_new in H. cbn [fst snd] in H. inversion H. subst st1 pushed. cbn [set_items items set_next_tm set_timers put_conn set_conns] in Hin.
-    apply (in_insert key_eqb key_eqb_ok) in Hin. destruct Hin as [[-> ->]|[Hin _]].
-    + right. left. exists k, f, e, c, d. repeat split.
-    + left. apply Hself. exact Hin.
-  - unfold timer_new in H. cbn [fst snd] in H. inversion H. subst st1 pushed. cbn [set_items items set_next_tm set_timers] in Hin.
-    apply (in_insert key_eqb key_eqb_ok) in Hin. destruct Hin as [[-> ->]|[Hin _]].
-    + right. right. exists k, f, e, c, d, did. repeat split.
-    + left. apply Hself. exact Hin.
-  - left. apply Hsame. inversion H. reflexivity.
-  - left. apply Hsame. inversion H. reflexivity.
-  - left. apply Hsame. match type of H with (if ?b then _ else _) = _ => destruct b end; inversion H; reflexivity.
-  - left. apply Hsame. destruct ((c_state (get_conn st k) =? c_connectionClosed) || negb room); inversion H; reflexivity.
-  - left. apply Hsame. destruct (c_state (get_conn st k) =? c_connectionActive); inversion H; reflexivity.
-  - left. apply Hsame. destruct (frameTypeFor (f_mt f)); [|inversion H; reflexivity].
-    match type of H with context [items_get ?a ?b ?cc] => destruct (items_get a b cc) as [st' g] eqn:E end.
-    inversion H; subst. apply items_get_spec in E. destruct E as [(_&A&_) _]. exact A.
-  - left. apply Hsame. destruct g as [[it0 stopped]|]; [|inversion H; reflexivity].
-    destruct (it_tomb it0 || (fin_of f && negb stopped)); inversion H; reflexivity.
-  - left. apply Hsame. match type of H with context [items_get ?a ?b ?cc] => destruct (items_get a b cc) as [st' g] eqn:E end.
-    inversion H; subst. apply items_get_spec in E. destruct E as [(_&A&_) _]. exact A.
-  - left. apply Hsame. destruct g as [[it0 stopped]|]; [|inversion H; reflexivity].
-    destruct (it_tomb it0 || (fin_of (r_f r) && negb stopped)); inversion H; reflexivity.
-  - left. apply Hsame. destruct room; inversion H; reflexivity.
-  - left. apply Hsame. destruct (items_get st t0 true) as [st' g] eqn:E. apply items_get_spec in E. destruct E as [(_&A&_) _].
-    destruct g as [[it0 [|]]|]; inversion H; subst; exact A.
-  - left. destruct (items_entomb cf st t0) as [st' g] eqn:E. apply items_entomb_spec in E. destruct E as (_&_&_&_&_&_&E).
-    assert (Hst : items st1 = items st').
-    { destruct g as [[it0 [|]]|]; inversion H; reflexivity. }
-    rewrite Hst in Hin. destruct (klookup t0 (items st)) as [it0|] eqn:El.
-    + destruct E as [(_&Hi&_)|[(_&_&Hi&_)|(_&_&Hi&_)]]; rewrite Hi in Hin.
-      * apply (in_remove key_eqb key_eqb_ok) in Hin. destruct Hin as [Hin _]. apply Hself. exact Hin.
-      * apply Hself. exact Hin.
-      * apply (in_insert key_eqb key_eqb_ok) in Hin. destruct Hin as [[-> ->]|[Hin _]].
-        -- exists it0. split; [eapply (lookup_in key_eqb key_eqb_ok); exact El|]. repeat split.
-        -- apply Hself. exact Hin.
-    + destruct E as (_&Hi&_). rewrite Hi in Hin. apply Hself. exact Hin.
-  - left. destruct (items_delete st t0) as [st' g] eqn:E. apply items_delete_spec in E. destruct E as (_&_&_&_&_&_&_&E).
-    assert (Hst : items st1 = items st').
-    { destruct g as [[it0 [|]]|]; inversion H; reflexivity. }
-    rewrite Hst in Hin. destruct (klookup t0 (items st)) as [it0|].
-    + destruct E as [_ Hi]. rewrite Hi in Hin. apply (in_remove key_eqb key_eqb_ok) in Hin. destruct Hin as [Hin _].
-      apply Hself. exact Hin.
-    + destruct E as [_ Hi]. rewrite Hi in Hin. apply Hself. exact Hin.
-  - left. apply Hsame. destruct (lookup Z.eqb tm (timers st)) as [x|]; [|inversion H; reflexivity].
-    destruct (tm_released x); inversion H; reflexivity.
-Qed.
+
 
 (* ---------------------------------------------------------------- what a step pushes *)
 
@@ -371,10 +303,10 @@ Proof.
     rewrite <- Hcc, Hcall. apply live_call_in; assumption.
   - (* IDelete *)
     right. rewrite app_nil_r. cbn [touches_i].
-    destruct (items_delete st t) as [st' g] eqn:E. apply items_delete_spec in E. destruct E as (_&_&_&_&_&_&_&E).
+    destruct (items_delete_call st t lk) as [st' g] eqn:E. apply items_delete_call_spec in E. destruct E as (_&_&_&_&_&_&_&E).
     destruct g as [[it [|]]|]; inversion H; subst; try contradiction. clear H.
     destruct (klookup t (items st)) as [it0|] eqn:El; [|destruct E as [E _]; discriminate].
-    destruct E as [Hg _]. inversion Hg. subst it0.
+    destruct E as [[Hg _]|[Hg _]]; [|discriminate]. inversion Hg. subst it0.
     in_cases Hj; cbn in Hr; try discriminate. apply Z.eqb_eq in Hr. subst c.
     apply live_call_in; [exact El|]. apply negb_true_iff. symmetry. assumption.
   - destruct (lookup Z.eqb tm (timers st)) as [x|]; [|inversion H; subst; contradiction].
@@ -488,7 +420,7 @@ Proof.
     destruct g as [[it0 [|]]|]; inversion H; subst; apply E.
   - destruct (items_entomb cf st t) as [st' g] eqn:E. apply items_entomb_spec in E. destruct E as (_&_&_&_&_&A&_).
     destruct g as [[it0 [|]]|]; inversion H; subst; exact A.
-  - destruct (items_delete st t) as [st' g] eqn:E. apply items_delete_spec in E. destruct E as (_&_&_&_&_&_&A&_).
+  - destruct (items_delete_call st t lk) as [st' g] eqn:E. apply items_delete_call_spec in E. destruct E as (_&_&_&_&_&_&A&_).
     destruct g as [[it0 [|]]|]; inversion H; subst; exact A.
   - destruct (lookup Z.eqb tm (timers st)) as [x|]; [|inversion H; reflexivity].
     destruct (tm_released x); inversion H; reflexivity.
